@@ -630,6 +630,17 @@ def unsat_programs(tier, rnd):
         [E(["|", ["notin", a, [lit(1), lit(2)]], ["notin", b, [lit(3)]]])],
         [E(["&", ["notin", a, [["rng", lit(1), lit(255)]]], ["in", b, [lit(4)]]])],
     ]
+    progs += [
+        [E(["in", c, [["rng", lit(200), lit(210)]]]), E([">=", c, lit(-128)])],           # in-range outside the type, then a lower bound
+        [E(["in", c, [["rng", lit(200), lit(210)]]]), E(["<=", c, lit(127)])],
+        [E(["in", a, [["rng", lit(300), lit(310)]]]), E([">", a, lit(0)])],
+        [E(["in", a, [["rng", lit(3), lit(5)]]]), E([">", a, lit(7)])],
+        [E(["in", a, [["rng", lit(3), lit(5)]]]), E(["<", a, lit(2)])],
+        [E(["in", a, [lit(3), lit(9)]]), E(["in", a, [lit(4), lit(10)]])],
+        [E(["in", a, [lit(3), lit(9)]]), E(["in", a, [lit(9), lit(10)]]), E([">=", a, b])],
+        [E(["<", a, lit(0)])], [E([">", a, lit(255)])], [E(["<", a, b]), E(["==", b, lit(0)])],
+        [E([">", a, b]), E(["==", b, lit(255)])], [E([">", a, b]), E([">", b, c]), E(["==", c, lit(127)]), E(["<", a, lit(129)])],
+    ]
     for st in progs:
         out.append(spec_single("satedge", "%s" % (st,), f3, st, calls=("randomize", "vsc_randomize", "randomize_with")))
     for n in (3, 4, 5):
@@ -649,3 +660,62 @@ def c02_programs(tier, sd):
         base = [s for i, s in enumerate(base) if s["tag"] != "atomic" or i % 3 == 0]
     return constfold_programs(tier, rnd) + unsat_programs(tier, rnd) + base + structure_programs(tier, rnd) + rangelist_history_programs(tier, rnd) + \
         random_programs(random.Random(sd + 1), 1500 if tier == "thorough" else 150)
+
+
+# ------------------------------------------------------------------------------------------ C03 histories
+def c03_programs(tier, sd):
+    rnd = random.Random(sd)
+    out = []
+    a, b, c, d = F("a"), F("b"), F("c"), F("d")
+    sub = {"name": "Sub", "fields": [fld("x", ("u", 8)), fld("y", ("u", 8), False), fld("z", ("s", 8))],
+           "blocks": [["sb0", "c", [E(["<", F("x"), F("y")]), E(["!=", F("z"), lit(0)])]]]}
+    for sub_rand in (True, False):
+        top = {"name": "Top", "fields": [fld("a", ("u", 8)), fld("b", ("s", 8)), fld("c", ("u", 8), False), fld("d", ("u", 4)),
+                                         ["s", "obj", "Sub", sub_rand], ["rl", "rl", [["rng", lit(-5), lit(5)], lit(100)]],
+                                         ["m", "list", ["u", 8], 2, False, False]],
+               "blocks": [["cb0", "c", [E(["<", a, c]), E(["in_rl", b, ["rl"]]), E(["!=", d, ["ps", F("s", "x"), 3, 0]])]],
+                          ["cb1", "c", [["if", [[[">", c, lit(100)], [E(["in_list", a, ["m"]])]]], [E([">", F("s", "z"), ["-", b, lit(3)]])]]]]]}
+        pr = {"enums": {}, "classes": [sub, top]}
+        init = [["set", ["top", "c"], 50], ["set", ["top", "s", "y"], 200], ["set", ["top", "m", 0], 7], ["set", ["top", "m", 1], 120]]
+        edits = [
+            ["set", ["top", "c"], 200], ["set", ["top", "c"], 1], ["set", ["top", "c"], 0], ["set", ["top", "a"], 33], ["set", ["top", "b"], -4],
+            ["rand_mode", ["top", "a"], False], ["rand_mode", ["top", "a"], True], ["rand_mode", ["top", "b"], False], ["rand_mode", ["top", "d"], False],
+            ["rand_mode", ["top", "s", "x"], False], ["rand_mode", ["top", "s", "x"], True], ["set", ["top", "s", "x"], 3], ["set", ["top", "s", "y"], 4],
+            ["set", ["top", "s", "y"], 0],
+            ["rl_append", ["top", "rl"], ["rng", lit(-128), lit(-120)]], ["rl_append", ["top", "rl"], lit(7)],
+            ["seq", [["rl_clear", ["top", "rl"]], ["rl_append", ["top", "rl"], ["rng", lit(3), lit(9)]]]],
+            ["seq", [["rl_clear", ["top", "rl"]], ["rl_extend", ["top", "rl"], [lit(-1), ["rng", lit(120), lit(127)]]]]],
+            ["seq", [["rl_clear", ["top", "rl"]], ["rl_append", ["top", "rl"], ["rng", lit(200), lit(210)]]]],      # outside b's type: unsatisfiable
+            ["set", ["top", "m", 0], 150], ["list_append", ["top", "m"], 199], ["list_clear", ["top", "m"]], ["list_assign", ["top", "m"], [10, 20, 30]],
+            ["cmode", ["top"], "cb1", False], ["cmode", ["top"], "cb1", True],
+        ]
+        calls = [["randomize", ["top"]], ["randomize_with", ["top"], [E([">", a, lit(2)])]], ["vsc_randomize", [["top"]]],
+                 ["vsc_randomize", [["top", "a"], ["top", "d"]]], ["vsc_randomize", [["top", "c"]]], ["vsc_randomize", [["top", "s"]]],
+                 ["vsc_randomize_with", [["top", "a"], ["top", "b"]], [E(["<", F("top", "a"), F("top", "c")]), E([">", F("top", "b"), F("top", "s", "z")])]],
+                 ["randomize_with", ["top"], [E(["==", a, lit(1)]), E(["==", a, lit(2)])]],          # unsatisfiable call
+                 ["randomize_with", ["top"], [E(["==", F("s", "y"), lit(0)]), E([">=", b, lit(-128)])]]]
+        nh = 60 if tier == "quick" else 600
+        # systematic: every single edit followed by every call kind
+        def flat(e):
+            return list(e[1]) if e[0] == "seq" else [e]
+        for e in edits:
+            for cl in calls[:4] + calls[7:8]:
+                out.append({"tag": "history", "desc": "sub_rand=%s edit %s then %s" % (sub_rand, e, cl[0:2]), "prog": pr,
+                            "world": [["top", "obj", "Top"]], "ops": init + [["randomize", ["top"]]] + flat(e) + [cl, ["randomize", ["top"]]]})
+        # seeded longer interleavings
+        for i in range(nh):
+            ops = list(init)
+            for step in range(rnd.randint(2, 4 if tier == "quick" else 6)):
+                for _ in range(rnd.randint(0, 3)):
+                    ops.extend(flat(rnd.choice(edits)))
+                ops.append(rnd.choice(calls))
+            out.append({"tag": "history_seeded", "desc": "sub_rand=%s seeded history #%d" % (sub_rand, i), "prog": pr,
+                        "world": [["top", "obj", "Top"]], "ops": ops})
+    # free-standing fields
+    pr = {"enums": {}, "classes": []}
+    world = [["f0", "u", 8, True], ["f1", "s", 8, False], ["f2", "u", 4, True]]
+    for cl in ([["vsc_randomize", [["f0"]]], ["vsc_randomize", [["f0"], ["f1"]]], ["vsc_randomize_with", [["f0"], ["f2"]], [E(["<", F("f0"), F("f1")]), E(["==", F("f2"), lit(3)])]],
+                ["vsc_randomize_with", [["f1"]], [E(["<", F("f1"), F("f0")])]]]):
+        out.append({"tag": "standalone", "desc": "standalone fields %s" % (cl,), "prog": pr, "world": world,
+                    "ops": [["set", ["f0"], 9], ["set", ["f1"], -7], ["set", ["f2"], 2], cl, ["set", ["f1"], 100], cl]})
+    return out
